@@ -407,7 +407,9 @@ def laws(report, rng, t, inp):
     report.count('law:copy')
     if dump(c) != dump(t):
         report.fail('C10:copy-differs', 'a fresh copy serialises differently', inp)
-    eps = ele_paths(c, rng, 3)
+    # whole elements and — where the tree has composites — single components (written in place inside the element object)
+    eps = ele_paths(c, rng, 3) + [x for x in ele_paths(c, rng, 500) if x[3] is not None][:3]
+    report.count('law:copy:component-writes', sum(1 for x in eps if x[3] is not None))
     for (p, sg, i, j) in eps:
         c.set_value(p, 'CPY')
     if dump(t) != base:
